@@ -159,6 +159,9 @@ def c03_fire(ctx, carrier, step_ft, wind, rlo, rhi, mode, unit, slo=None, shi=No
         uu = getattr(U, unit)
         return uu(p.Distance.Foot(v) >> uu)
     from harness.common import with_preferred
+    # the calculator has been used before: a card WITH extra data and a time step
+    # (concrete requests; what a plain card contains does not depend on what the calculator was asked earlier)
+    calc.fire(shot, U.Foot(3.0 * step_ft), U.Foot(step_ft), True, 0.001)
     with carriers.spy_filter() as spy, with_preferred(distance=PU):
         if mode == 'nostep':
             res = calc.fire(shot, q(R))
